@@ -4,5 +4,6 @@ CONSTANT MaxRecs = 3
 INVARIANT TypeOK
 INVARIANT Agree
 INVARIANT PrefixClosed
+INVARIANT SizeNeutral
 INVARIANT Emit
 CHECK_DEADLOCK FALSE
